@@ -624,9 +624,9 @@ def g4(ctx, prop, rel, rule):
     for fi in ctx.repo.all_funcs():
         cls = fi.cls.node if fi.cls is not None else None
         n += 1
-        for c, what in _rowtear.tears(fi.node, cls):
-            msg = ('%s sorts a record table column by column (axis 0): the '
-                   'rows are torn apart' % what)
+        for c in _rowtear.tears(fi.node, cls):
+            msg = ('`%s` sorts a record table column by column (axis 0): the '
+                   'rows are torn apart' % ' '.join(src(c).split())[:80])
             if fi.full in rel:
                 ctx.violation(rule, fi, c, msg,
                               key='%s | row tear' % fi.full)
